@@ -444,6 +444,43 @@ def _escapes(loop: ast.For, names, root) -> bool:
     return bool(found)
 
 
+def default_then_override(stmts: list[ast.stmt]) -> list[ast.stmt]:
+    """x = A; if c: x = B      ->      if c: x = B else: x = A        (A pure, evaluated only where it is kept; c reads x as A)"""
+    out = []
+    stmts = list(stmts)
+    i = 0
+    while i < len(stmts):
+        s_ = stmts[i]
+        for fld in ("body", "orelse", "finalbody"):
+            b = getattr(s_, fld, None)
+            if isinstance(b, list) and b and isinstance(b[0], ast.stmt) and not isinstance(s_, (ast.FunctionDef, ast.AsyncFunctionDef, ast.ClassDef)):
+                setattr(s_, fld, default_then_override(b))
+        if isinstance(s_, ast.Try):
+            for h in s_.handlers:
+                h.body = default_then_override(h.body)
+        nxt = stmts[i + 1] if i + 1 < len(stmts) else None
+        if isinstance(s_, ast.Assign) and len(s_.targets) == 1 and isinstance(s_.targets[0], ast.Name) and is_pure(s_.value) and isinstance(nxt, ast.If):
+            x = s_.targets[0].id
+            body = [y for y in nxt.body if not isinstance(y, ast.Pass)]
+            orelse = [y for y in nxt.orelse if not isinstance(y, ast.Pass)]
+            one = body if body and not orelse else (orelse if orelse and not body else None)
+            if one is not None and len(one) == 1 and isinstance(one[0], ast.Assign) and len(one[0].targets) == 1 and isinstance(one[0].targets[0], ast.Name) \
+                    and one[0].targets[0].id == x and not any(isinstance(n, ast.NamedExpr) for n in ast.walk(nxt.test)):
+                # nested if-chains in `one` are left alone; the default must not be read by the override itself
+                if not any(isinstance(n, ast.Name) and n.id == x for n in ast.walk(one[0].value)):
+                    test = _Subst({x: s_.value}).visit(copy.deepcopy(nxt.test))
+                    keep = ast.copy_location(ast.Assign(targets=[ast.Name(id=x, ctx=ast.Store())], value=s_.value), s_)
+                    new = ast.If(test=test, body=(one if one is body else [keep]), orelse=([keep] if one is body else one))
+                    ast.copy_location(new, nxt)
+                    ast.fix_missing_locations(new)
+                    out.append(new)
+                    i += 2
+                    continue
+        out.append(s_)
+        i += 1
+    return out
+
+
 def split_parallel_assign(stmts: list[ast.stmt]) -> list[ast.stmt]:
     """a, b = (E1, E2)  /  a, b = [E1, E2]   ->   a = E1; b = E2     when no Ei reads a name the statement binds (evaluation order kept)"""
     out = []
